@@ -15,6 +15,11 @@ import (
 
 func init() {
 	lifecycleOps["CloseReload"] = closeReload
+	// Pause (probes only, never part of a checked history): wait n milliseconds
+	lifecycleOps["Pause"] = func(x *runner, sw string, h History, q Req) (map[string]any, bool) {
+		time.Sleep(time.Duration(q.N) * time.Millisecond)
+		return map[string]any{"op": "Pause", "ret": true, "err": ""}, false
+	}
 	extraOps["PatchMeta"] = patchMeta
 	extraOps["PatchExpired"] = patchExpired
 	extraOps["FilterExp"] = filterExp
